@@ -3,6 +3,7 @@ from .common import *
 from .codewrite import *
 from . import patches
 
+PER_TARGET = True      # every rule below looks at one target configuration at a time (check.py may fork one worker per target)
 DECIDED = ("for every public install root, in each of the three entry classes (A32; T32 at 0 mod 4; T32 at 2 mod 4 — exhaustive for the "
            "code's own case split, the rest of the address symbolic): the 12 written bytes decode (independent A32/T32 tables) to "
            "NOP* ; LDR Rt,[pc,#imm] ; BX Rt where the word the load addresses (Align(PC,4)+imm inside the patch) is byte for byte the "
